@@ -31,7 +31,8 @@ def configs(tier):
           dict(width=16, endian="little", gap=1, ready=1, bulk=1),
           dict(width=16, endian="big", gap=3, ready=1, bulk=0),
           dict(width=24, endian="big", gap=1, ready=1, bulk=1),
-          dict(width=24, endian="little", gap=2, ready=3, bulk=0)]
+          dict(width=24, endian="little", gap=2, ready=3, bulk=0),
+          dict(width=16, endian="little", gap=1, ready=1, bulk=0, domain="sync")]
     if tier == "quick":
         for c in cs:
             if c["bulk"]: c["depth"] = 6          # configurations without the bulk endpoint run to the fixed point
@@ -40,7 +41,11 @@ def configs(tier):
                dict(width=8, endian="little", gap=1, ready=4, bulk=1),
                dict(width=17, endian="big", gap=2, ready=2, bulk=1),
                dict(width=24, endian="big", gap=6, ready=5, bulk=1, pace=3),
-               dict(width=1, endian="big", gap=2, ready=2, bulk=0)]
+               dict(width=1, endian="big", gap=2, ready=2, bulk=0),
+               dict(width=9, endian="big", gap=2, ready=2, bulk=0, domain="sync"),
+               dict(width=24, endian="big", gap=1, ready=1, bulk=0, domain="sync"),
+               dict(width=8, endian="little", gap=3, ready=1, bulk=0, domain="sync", pace=2),
+               dict(width=1, endian="little", gap=1, ready=3, bulk=0, domain="sync")]
     return cs
 
 
@@ -60,12 +65,19 @@ class SignalSpec(Spec):
         m = (1 << self.w) - 1
         self.vals = (VA & m, VB & m)
         flips = [None, ("t", 1), ("t", 5), ("s",), ("m",)] + ([("t", 9)] if tier == "thorough" else [])
+        # signal in another clock domain (signal_domain != "usb", synchronised into usb): it may change in any cycle, and
+        # the value reported may be any value it had from SYNC_SLACK cycles before the end of the token until the response starts
+        self.domain = cfg.get("domain", "usb")
+        self.slack = 0 if self.domain == "usb" else 4
+        if self.domain != "usb":
+            flips = [None, ("s",), ("m",)] + [("t", d) for d in ((-3, -1, 1, 2, 3, 4, 5, 6, 7) if tier == "thorough" else (-2, 1, 3, 4, 5, 6))]
         self._acts = [("in1", ack, f) for ack in (1, 0) for f in flips] + [("flip",), ("sof",), ("out1",), ("foreign",), ("in3",)]
         if self.bulk: self._acts += [("in2", 1), ("in2", 0)]
 
     def build(self):
         from luna.gateware.usb.usb2.endpoints.status import USBSignalInEndpoint
-        eps = [lambda: USBSignalInEndpoint(width=self.w, endpoint_number=1, endianness=self.cfg["endian"])]
+        kw = {} if self.cfg.get("domain", "usb") == "usb" else dict(signal_domain=self.cfg["domain"])
+        eps = [lambda: USBSignalInEndpoint(width=self.w, endpoint_number=1, endianness=self.cfg["endian"], **kw)]
         if self.bulk:
             from luna.gateware.usb.usb2.endpoints.stream import USBStreamInEndpoint
             eps.append(lambda: USBStreamInEndpoint(endpoint_number=2, max_packet_size=2))
@@ -77,11 +89,14 @@ class SignalSpec(Spec):
             b = h["endpoints"][1]
             design.inputs.update(b_valid=b.stream.valid, b_payload=b.stream.payload)
             design.defaults.update(b_valid=1, b_payload=0x5C)
+        if kw:
+            design.clocks = {"usb": (1, 0), kw["signal_domain"]: (1, 0)}      # both domains tick on every step
         return design
 
     def assumptions(self):
         return self.host.assumptions() + [
-            "the monitored signal is in the usb clock domain (signal_domain='usb')",
+            "the monitored signal is in the usb clock domain (signal_domain='usb'), or (domain='sync' configurations) in another domain that ticks "
+            "together with usb; then any value the signal had from 4 cycles before the end of the IN token until the response starts is admitted",
             "the host sends ACK only as the handshake of a data packet it has just received (from this device, or - invisible to this device - from another one)",
             "a signal change inside the turn-around window between token and response may be reported as either value",
             "no bus reset and no SET_CONFIGURATION / CLEAR_FEATURE (which would restart the toggle); device address stays 0"]
@@ -195,11 +210,15 @@ class SignalSpec(Spec):
             self.cover["retry:" + ("after-" + since if since else "immediately")] += 1
             if sig != pend or flipped: self.cover["retry:after-signal-change"] += 1
         else:
-            # admissible samples: the value the signal had from the end of the token until the response started
-            adm = {sig}
-            if flipped and st["flipped_at"] <= st["started"]:
-                adm.add(sig ^ 1); self.cover["flip:turnaround"] += 1
-            elif flipped:
+            # admissible samples: the values the signal had from the end of the token (minus the synchroniser slack) until the response started
+            w0 = t_end + 1 - self.slack
+            if flipped and st["flipped_at"] <= w0:
+                adm = {sig ^ 1}; self.cover["flip:before-window"] += 1
+            elif flipped and st["flipped_at"] <= st["started"]:
+                adm = {sig, sig ^ 1}; self.cover["flip:turnaround"] += 1
+            else:
+                adm = {sig}
+            if flipped and st["flipped_at"] > st["started"]:
                 self.cover["flip:at-start" if flip[0] == "s" else ("flip:mid" if flip[0] == "m" else "flip:turnaround-late")] += 1
             hit = [i for i in sorted(adm) if payload == self._bytes(i)]
             if not hit:
